@@ -8,9 +8,10 @@ PROP_MODULES = ['Dhlldv.Props.C05']
 PROVED = ['derived Cvs = Cvt/(1-Xi) with Xi the slip ratio of the same eight arguments',
           'for every regime key r: Cvt-result[r] = Cvs-result(at derived Cvs)[r] * 1/(1-Xi); result["Xi"] = Xi; il unchanged (all reals, both switches)',
           'reported regime is the spatial regime with FB replaced by the smaller of SB/He, hence in {SB, He, Ho}; value = entry under that code; long name follows',
-          '0 <= Xi <= 1 - Cvt/Cvb and Cvt > 0 imply Cvt <= Cvs <= Cvb']
+          '0 <= Xi <= 1 - Cvt/Cvb and Cvt > 0 imply Cvt <= Cvs <= Cvb',
+          'lower half of the slip bound for ALL arguments: Cvt < Cvb implies Xi >= Xi_3LM = (1-Cvr) exp(...) > 0 (convex combination with weight f in [0,1]); hence Cvs > Cvt whenever Xi < 1']
 HYPOTHESES = []
-MONITORED = ['0 <= Xi <= 1 - Cvt/Cvb on E (magnitude facts about the iterative LDV / stationary-deposit sub-models; searched on the real code every run)']
+MONITORED = ['upper half Xi <= 1 - Cvt/Cvb on E and on the edges 0.01-0.02 / 0.45-0.5 of the documented concentration range (outside 0.01-0.5 it fails: listed finding) (magnitude facts about the iterative LDV / stationary-deposit sub-models; searched on the real code every run)']
 RULE = ('E points incl. vls = 0.1, d/Dp thresholds (f in {0,(0,1),1}: d/Dp <= 0.015, between, >= 0.06), speeds around vls_t, lean (0.02) and rich (0.45) concentrations; '
         'non-trivial = distinct (regime, spatial regime was FB, f class, side of vls_t) classes')
 ASSUMPTIONS = ['generated slip_ratio / Cvt_Erhg equal the implementation bit-for-bit (correspondence)']
@@ -105,10 +106,44 @@ def monitor(ctx, extended=False):
                 ctx.violation(bad, {'args': list(a), 'use_sf': sf, 'use_sqrtcx': sq}, key='slip')
             else:
                 classes.add(cls)
+        # the slip bound over the whole range of delivered concentrations ("for any delivered concentration"): the edges of the range the viewer
+        # documents (0.01-0.02, 0.45-0.5) must hold; outside 0.01-0.5 the bound fails on the unchanged tree (listed finding), reported under its own key
+        bands = [((0.01, 0.02), 'slip'), ((0.45, 0.5), 'slip'), ((0.0005, 0.0099), 'slip-bound-extreme-concentration'), ((0.5001, 0.599), 'slip-bound-extreme-concentration')]
+        for _ in range(ctx.n(400, 20000)):
+            a = list(E.point(ctx.rng))
+            (lo, hi), key = ctx.rng.choice(bands)
+            a[7] = ctx.rng.uniform(lo, hi)
+            ctx.count('evaluations')
+            try:
+                Xi = F.slip_ratio(*a)
+                ok = isinstance(Xi, float) and 0 <= Xi <= 1 - a[7] / 0.6 + 1e-12
+                what = f'slip ratio {Xi!r} outside [0, 1 - Cvt/Cvb = {1 - a[7] / 0.6!r}] at Cvt = {a[7]!r}'
+            except Exception as e:   # noqa
+                ok, what = False, f'slip_ratio raised {type(e).__name__}: {e} at Cvt = {a[7]!r}'
+            if not ok:
+                ctx.violation(what, {'args': a, 'use_sf': True, 'use_sqrtcx': True}, key=key)
+            else:
+                classes.add(('bound-only', key, lo))
     finally:
         F.use_sf, F.use_sqrtcx = True, True
     ctx.stats['distinct_nontrivial'] = len(classes)
     ctx.stats['classes'] = sorted(map(str, classes))
+
+
+KNOWN_WITNESS = [1.131166571264382, 0.3, 0.005003485627773149, 4.5e-5, 1.0e-6, 1.0, 2.2, 0.55]
+
+
+def replay_known(kf):
+    """witness of the listed finding `slip-bound-extreme-concentration`: True if it still reproduces"""
+    if kf['key'] != 'slip-bound-extreme-concentration':
+        return False
+    from DHLLDV import DHLLDV_framework as F
+    a = kf.get('witness', {}).get('args') or KNOWN_WITNESS
+    try:
+        Xi = F.slip_ratio(*a)
+        return not (isinstance(Xi, float) and 0 <= Xi <= 1 - a[7] / 0.6 + 1e-12)
+    except Exception:   # noqa
+        return True
 
 
 def replay(v):
